@@ -1293,6 +1293,56 @@ def check_shut(ctx):
                       'every exit after the first start() passes the '
                       'sentinel loop and the join loop',
                       at=func.where(first.ast), detail={'paths': n_paths})
+        # SHUT-2: as many sentinels as started workers.  The queue outlives
+        # the call: a sentinel nobody consumes stays in it and stops a
+        # worker of the NEXT call before it has done anything.
+        spawn = [n for n in cfg.nodes if n.kind == 'iter' and any(
+            c in starts for s in n.ast.body for c in calls_in(s))]
+        sent = [n for n in cfg.nodes if is_put_none(n)]
+        joins = [n for n in cfg.nodes if is_join(n)]
+        thread_lists = {txt(n.ast.iter) for n in joins}
+        for snode in sent:
+            construct = f'sentinel loop `for ... in {txt(snode.ast.iter)}`'
+            if any(tl and tl in txt(snode.ast.iter) for tl in thread_lists):
+                ctx.holds('SHUT-2', func, construct + ' counts the started '
+                          'threads', at=func.where(snode.ast))
+                continue
+            if len(spawn) != 1 or txt(spawn[0].ast.iter) != txt(
+                    snode.ast.iter):
+                ctx.undecided('SHUT-2', func, construct,
+                              at=func.where(snode.ast),
+                              detail='spawn loop and sentinel loop do not '
+                                     'iterate over the same expression')
+                continue
+            witness = None
+            try:
+                for path in cfg.paths(cfg.entry, limit=50000):
+                    nodes = [n for n, _ in path]
+                    if snode not in nodes:
+                        continue
+                    upto = path[:nodes.index(snode)]
+                    if not any(n is spawn[0] and lab == 'exhausted'
+                               for n, lab in upto):
+                        raiser = next((n for n, lab in upto
+                                       if lab == 'exc'), None)
+                        witness = raiser
+                        break
+            except OverflowError:
+                ctx.undecided('SHUT-2', func, construct,
+                              at=func.where(snode.ast))
+                continue
+            found = witness is not None
+            ctx.decide(
+                'SHUT-2', func, construct + ' is reached only after all '
+                'the workers were started', not found,
+                at=func.where(snode.ast),
+                detail=None if not found else {
+                    'path': f'exception in `{witness.text(60)}` reaches the '
+                            f'sentinel loop before the spawn loop is over',
+                    'why': 'more sentinels than workers: the extra ones '
+                           'stay in the queue of the backend after the call '
+                           'and kill the workers of the next call'})
+        ctx.floor('SHUT-2', len(sent), 1, 'sentinel loops')
 
 
 def check_wait_sent(ctx):
@@ -1351,7 +1401,10 @@ def check_wait_sent(ctx):
         ctx.decide('SENT', func,
                    f'workers started over `{txt(start_loop.iter)}`, '
                    f'sentinels put over `{txt(put_loop.iter)}`',
-                   txt(start_loop.iter) == txt(put_loop.iter),
+                   txt(start_loop.iter) == txt(put_loop.iter) or
+                   txt(put_loop.iter) in {
+                       dotted(receiver(c)) for s in start_loop.body
+                       for c in calls_in(s) if call_name(c) == 'append'},
                    at=func.where(put_loop),
                    detail='one sentinel per started worker')
         joins = [c for c in calls_in(func.node) if call_name(c) == 'join'
@@ -1585,3 +1638,76 @@ def check_clock_src(ctx):
                     'why': 'a clock with an arbitrary origin is persisted '
                            'and compared across runs' if local else None})
     ctx.floor('CLOCK-SRC', len(decided), 2, 'recorded start / end clocks')
+
+
+# -------------------------------------------------------- BACKEND-OWNED ---
+
+def check_backend_owned(ctx):
+    """The work queue belongs to a backend instance and sentinels, tasks and
+    queue.join() of one schedule() call assume that nobody else uses it.  A
+    backend built ONCE for the process - class attribute, module-level
+    object, default value of a parameter - is shared by every Scheduler that
+    does not name its own: two calls alive at the same time (a task that
+    schedules a sub-graph, two threads) steal each other's sentinels and
+    tasks and block in queue.join()."""
+    from ..loader import ClassInfo
+    program = ctx.program
+    backends = [c for c in program.all_classes()
+                if c.module.name.startswith(BACKENDS) and
+                c.parent_cls is None]
+    ctx.floor('BACKEND-OWNED', len(backends), 1, 'backend classes')
+    names_ = {c.name for c in backends}
+    n = 0
+    for mod in program.modules.values():
+        if not mod.name.startswith('valjean.cosette'):
+            continue
+        program.consulted.add(mod.relpath)
+        shared = []
+
+        def ctor_calls(node):
+            for sub in ast.walk(node):
+                if isinstance(sub, ast.Call):
+                    res = program.resolve_name_expr(mod, sub.func)
+                    if isinstance(res, ClassInfo) and res.name in names_:
+                        yield sub
+
+        def scan(body, where):
+            for stmt in body:
+                if isinstance(stmt, (ast.FunctionDef, ast.AsyncFunctionDef)):
+                    for dflt in stmt.args.defaults + [
+                            d for d in stmt.args.kw_defaults if d]:
+                        for call in ctor_calls(dflt):
+                            shared.append((call, f'default value of a '
+                                           f'parameter of {stmt.name}'))
+                    continue
+                if isinstance(stmt, ast.ClassDef):
+                    scan(stmt.body, f'class attribute of {stmt.name}')
+                    continue
+                if isinstance(stmt, (ast.If, ast.Try, ast.With)):
+                    for fld in ('body', 'orelse', 'finalbody'):
+                        scan(getattr(stmt, fld, []) or [], where)
+                    continue
+                for call in ctor_calls(stmt):
+                    shared.append((call, where))
+
+        scan(mod.tree.body, 'module-level object')
+        for call, where in shared:
+            n += 1
+            ctx.violated('BACKEND-OWNED', f'{mod.name}',
+                         f'{txt(call)[:50]} built once as {where}',
+                         at=f'{mod.relpath}:{call.lineno}',
+                         detail='one queue for every scheduler of the '
+                                'process: overlapping schedule() calls mix '
+                                'their tasks and sentinels and never come '
+                                'back')
+        # per-call constructions (inside functions) are what is expected
+        for func in mod.functions.values():
+            for call in calls_in(func.node):
+                res = program.resolve_name_expr(mod, call.func, func)
+                if isinstance(res, ClassInfo) and res.name in names_ and \
+                        not any(call is c for c, _ in shared):
+                    n += 1
+                    ctx.holds('BACKEND-OWNED', func,
+                              f'{txt(call)[:50]} built per call of '
+                              f'{func.name}', at=func.where(call))
+    ctx.floor('BACKEND-OWNED', n, 1, 'constructions of a backend')
